@@ -132,6 +132,9 @@ pub async fn preempt_point_current(site: &'static str) {
 
 /// Gate called from the `poll_fn` of `VirtualSystem::select`.
 pub fn select_gate(pid: Pid, cx: &mut Context<'_>) -> Option<Poll<Result<c_int, Errno>>> {
+    // Lets the simulator detect a process that spins in `select` without ever
+    // yielding to the outer executor.
+    event(pid, "select", 0, 0);
     PREEMPT.with(|p| {
         let mut p = p.borrow_mut();
         match p.get(&pid).copied() {
